@@ -9,13 +9,14 @@ pub mod c02;
 pub mod c03;
 pub mod c04;
 pub mod c05;
+pub mod c06;
 pub mod c07;
 pub mod c08;
 pub mod c09;
 pub mod c15;
 pub mod c16;
 
-pub const ALL: &[&str] = &["C02", "C03", "C04", "C05", "C07", "C08", "C09", "C15", "C16"];
+pub const ALL: &[&str] = &["C02", "C03", "C04", "C05", "C06", "C07", "C08", "C09", "C15", "C16"];
 
 pub fn run(ctx: &Ctx) -> i32 {
     match ctx.prop.as_str() {
@@ -23,6 +24,7 @@ pub fn run(ctx: &Ctx) -> i32 {
         "C03" => c03::run(ctx),
         "C04" => c04::run(ctx),
         "C05" => c05::run(ctx),
+        "C06" => c06::run(ctx),
         "C07" => c07::run(ctx),
         "C08" => c08::run(ctx),
         "C09" => c09::run(ctx),
@@ -41,6 +43,7 @@ pub fn replay_case(prop: &str, suite: &str, case: &Value) -> Option<Verdict> {
         "C03" => c03::replay(suite, case),
         "C04" => c04::replay(suite, case),
         "C05" => c05::replay(suite, case),
+        "C06" => c06::replay(suite, case),
         "C07" => c07::replay(suite, case),
         "C08" => c08::replay(suite, case),
         "C09" => c09::replay(suite, case),
